@@ -61,7 +61,8 @@ func Program(t *rapid.T, related bool) (string, []string) {
 		case 4:
 			s = "(" + s + ")"
 		case 5:
-			s = rapid.SampledFrom([]string{"[]", "{}", "[[]]", "[{}]", "{k:[]}", "[[]][0]", "[{}][0]", "{k:[]}.k", "{k:{}}.k", "[[[]]][0][0]", "[[] []][1]"}).Draw(t, label+"empty")
+			s = rapid.SampledFrom([]string{"[]", "{}", "[[]]", "[{}]", "{k:[]}", "[[]][0]", "[{}][0]", "{k:[]}.k", "{k:{}}.k", "[[[]]][0][0]", "[[] []][1]",
+				"[[]] + [[]]", "[{}] + [{}]", "([[]])", "[[]] * 2", "[[]][:]", "[] + []", "([[]] + [[]])[0]"}).Draw(t, label+"empty")
 		}
 		return s, S
 	}
@@ -77,7 +78,7 @@ func Program(t *rapid.T, related bool) (string, []string) {
 			}
 		}
 		v := "q" + strconv.Itoa(i)
-		k := rapid.SampledFrom([]string{"assign", "param", "variadic", "return", "element", "field", "operand", "index", "range", "condition", "assertion", "decl-then-assign", "store", "store"}).Draw(t, "context")
+		k := rapid.SampledFrom([]string{"assign", "param", "variadic", "return", "element", "field", "operand", "index", "range", "condition", "assertion", "decl-then-assign", "store", "store", "any-compare", "typeof-any"}).Draw(t, "context")
 		ops = append(ops, "confuse:"+k)
 		switch k {
 		case "assign":
@@ -146,6 +147,13 @@ func Program(t *rapid.T, related bool) (string, []string) {
 				rhs = "\"x\""
 			}
 			sb.WriteString(v + " := " + m.RenderExpr(init, lay) + "\n" + target + " = " + rhs + "\nprint " + v + "\n")
+		case "any-compare":
+			// two any values of whatever types compared with each other: == is defined for operands of the same static type
+			e2, _ := expr("g" + strconv.Itoa(i))
+			sb.WriteString(v + "a:any\n" + v + "b:any\n" + v + "a = " + e + "\n" + v + "b = " + e2 + "\nprint (" + v + "a == " + v + "b) (" + v + "a != " + v + "b) (" + v + "b == " + v + "a) ([" + v + "a] == [" + v + "b])\n")
+		case "typeof-any":
+			// the type a value carries inside an any, as typeof reports it (marked so that the run can be checked for it)
+			sb.WriteString(v + "a:any\n" + v + "a = " + e + "\nprint \"typeof-any:\" (typeof " + v + "a) (typeof [" + v + "a][0])\n")
 		case "decl-then-assign":
 			sb.WriteString(v + " := " + e + "\n" + v + "b:" + T.String() + "\n" + v + "b = " + v + "\n" + v + " = " + v + "b\n")
 		}
